@@ -384,6 +384,60 @@ def run_config_tables(params, known):
     return dict(name=params['name'], evaluations=count, nontrivial_keys=sorted(keys), violations=violations, known=[], samples=[])
 
 
+def run_long_history(params, known):
+    '''A delivered and a forwarded bundle, then N other bundles, then the two again: acted on once
+    whatever N (the identity memory does not forget while the agent runs).'''
+    violations = []
+    kinds = set()
+    count = 0
+    keys = set()
+    T0 = 700000000000
+
+    def other(i):
+        pri = dict(flags=0, crc_type=1, dest='dtn://node/svc' if i % 2 else 'dtn://far/y', src='dtn://bulk/', report_to='dtn:none',
+                   ts=(T0 + 9, i), lifetime=3600000)
+        return B.encode(dict(primary=pri, blocks=[dict(type=1, num=1, flags=0, crc_type=1, data=b'bulk%d' % i)]))
+    names = [n for (n, _b) in MENU]
+    (local, fwd) = (ENC[names.index('local')], ENC[names.index('forward')])
+    for gap in (0, 1, 255, 256, 257, 300, 1100):
+        count += 1
+        world = BpWorld(dict(node_id=NODE, rx_routes=TABLES['deliver-first'], tx_routes=TX_ROUTES, max_quiesce=4000))
+        for data in [local, fwd] + [other(i + 1) for i in range(gap)] + [local, fwd, fwd, local]:
+            world.receive(data)
+            world.quiesce()
+        keys.add('gap-%d' % gap)
+        found = None
+        if world.escaped or world.api_errors:
+            esc = (world.escaped or world.api_errors)[-1]
+            found = ('exception-escaped', '%s: %s' % (esc[0], esc[2] if world.escaped else esc[1]))
+        else:
+            delivered = [(d['src'], d['ts'][0], d['ts'][1]) for d in world.probe.seen]
+            forwarded = []
+            reports = 0
+            for octets in world.sent():
+                dec = B.decode(octets)
+                if dec['primary']['flags'] & B.FLAG_ADMIN and dec['primary']['src'] == NODE:
+                    reports += 1
+                else:
+                    forwarded.append(ident_of(dec))
+            want_d = [('dtn://src/', T0, 1)] + [('dtn://bulk/', T0 + 9, i + 1) for i in range(gap) if (i + 1) % 2]
+            want_f = [('dtn://src/', T0, 6)] + [('dtn://bulk/', T0 + 9, i + 1) for i in range(gap) if not (i + 1) % 2]
+            if sorted(delivered) != sorted(want_d):
+                found = ('deliveries-differ-from-reference', '%d deliveries (of dtn://src/: %r), reference %d'
+                         % (len(delivered), [d for d in delivered if d[0] == 'dtn://src/'], len(want_d)))
+            elif sorted(forwarded) != sorted(want_f):
+                found = ('transmissions-differ-from-reference', '%d transmissions (of dtn://src/: %r), reference %d'
+                         % (len(forwarded), [d for d in forwarded if d[0] == 'dtn://src/'], len(want_f)))
+            elif reports != len(solo_reports('deliver-first', names.index('local'))) + len(solo_reports('deliver-first', names.index('forward'))):
+                found = ('report-without-first-time-processing', '%d reports emitted' % reports)
+        if found and found[0] not in kinds:
+            kinds.add(found[0])
+            v = Violation(PROP, 'router', found[0], dict(), '%d other bundles between the first copies and the repeats: %s' % (gap, found[1])).as_dict()
+            v['case'] = dict(gap=gap)
+            violations.append(v)
+    return dict(name=params['name'], evaluations=count, nontrivial_keys=sorted(keys), violations=violations, known=[], samples=[])
+
+
 def scenarios(tier):
     depth = 4 if tier == 'thorough' else 3
     out = []
@@ -399,6 +453,7 @@ def scenarios(tier):
             out.append(dict(name='twins/%s/first-%s' % (table, MENU[first][0]), kind='graph',
                             params=dict(table=table, max_depth=depth + 1, first=first, menu=TWINS), dev_bound=0, use_snapshot=False,
                             liveness=False, max_states=500000, weight=1))
+    out.append(dict(name='long-history', kind='enum', runner='run_long_history', params=dict(name='long-history'), weight=3))
     for part in range(4):
         name = 'config-tables-%d/4' % (part + 1)
         out.append(dict(name=name, kind='enum', runner='run_config_tables', params=dict(name=name, part=part, parts=4), weight=3))
@@ -431,6 +486,7 @@ ASSUMPTIONS = [
     'twins scenarios: histories of at most 4 (quick) / 5 (thorough) fragments of three look-alike fragmented bundles (same source; same time and the next sequence number; a millisecond later), under two tables',
     'a delivered bundle carries its own application data (for a reassembled one: the octets of its own fragments)',
     'configuration file: every receive table of up to 3 entries over 4 usable + 4 unusable entries (670 documents with the transmit tables of up to 3 over 2 + 2), read by the JSON-subset stand-in for PyYAML; five destinations routed through each',
+    'long histories: 0, 1, 255, 256, 257, 300 and 1100 other bundles between the first copies of a delivered and a forwarded bundle and their repeats',
     'routing patterns are matched with re.match (anchored at the start) as the configuration loader compiles them',
     'a bundle addressed to the node\'s own administrative endpoint is delivered whatever the table says',
     'four menu bundles request every status report towards a routed report-to endpoint; the reports expected for a history are those a fresh agent emits for the first copy of each identity alone (differential reference), as an upper bound in every state and exactly when quiescent',
